@@ -282,7 +282,14 @@ func c17TicksCheck(c *C17Scale, r *core.Rec) {
 		}
 	}
 	// Ticks(o)
+	before := s
 	major, minor := s.Ticks(o)
+	if n := s.CountTicks(1); n >= 0 && n < 4000 { // never ask for an unbounded tick list
+		s.TicksAtLevel(1)
+	}
+	if s != before {
+		r.Fail("scale-modified", "Linear{%v,%v,base %d}: Ticks/CountTicks/TicksAtLevel changed the scale itself to %+v", c.Min, c.Max, c.Base, s)
+	}
 	keepMajor, keepMinor := append([]float64{}, major...), append([]float64{}, minor...)
 	defer func() {
 		// tick slices already returned keep their values while the scales are used further
